@@ -10,7 +10,8 @@ Require Import FV.Gen.C12 FV.C12.Model FV.C12.Lemmas FV.C12.ConcModel FV.C12.Con
 Theorem C12_source_facts :
   update_messages_ok = true /\ timestamp_clamped_before_update = true /\ shorthand_lookup_shape = true /\
   reply_update_precedes_release = true /\ reply_error_not_stored_again = true /\
-  update_value_order = true /\ callback_iterates_copy = true /\ register_appends_in_place = true /\
+  update_value_order = true /\ callback_iterates_copy = true /\ unregister_handler_checks_membership = true /\
+  register_appends_in_place = true /\
   dispatch_removes_from_fetched_list = true /\ internalize_shape = true /\
   error_default_is_InternalError = true /\ array_validate_pads_previous = true /\ predefined_names <> [] /\ error_classes <> [] /\ error_names <> [].
 Proof. repeat split; try reflexivity; discriminate. Qed.
@@ -160,36 +161,41 @@ Qed.
       client state s (hence for every dispatch of every history rrun W s0 ops):
       (a) the dispatch invokes exactly the callbacks that stand in the list of (cn, lv) when the dispatch of that level
           starts, each once, in list order, with the meaning of the message -- whatever the invoked callbacks register or
-          unregister meanwhile (a callback registered during the dispatch is not dispatched for this message: it got its
-          immediate call with the cached state, theorem 6; one unregistered during the dispatch is still called);
+          unregister meanwhile, also when one of them unregisters a callback that then raises UnregisterCallback (until
+          repository commit 4741ef2 the ValueError of cblist.remove ended the dispatch there: finding
+          C12/unregister-then-oneshot-breaks-dispatch; this part then held only for runs without such a removal).  A
+          callback registered during the dispatch is not dispatched for this message (it got its immediate call with the
+          cached state, theorem 6); one unregistered during the dispatch is still called;
       (b) callbacks never touch the cache;
-      (c) unless a callback that was unregistered meanwhile raised UnregisterCallback (rbad: ValueError in the
-          implementation, outside the model), for every callback c0: occurrences of c0 in the list afterwards + number of
-          times c0 raised UnregisterCallback in this dispatch <= occurrences before + number of times register_callback
-          appended c0 to this list meanwhile.  So every UnregisterCallback costs the callback one registration: a one-shot
-          callback registered once and not registered again is gone from the list, and by (a) no later dispatch invokes it,
-          even when it registered its successor on the same list from inside itself.
-      The source facts register_appends_in_place / dispatch_removes_from_fetched_list / callback_iterates_copy tie the
-      single list per (callback name, key) of the model to the code: register appends to the stored list object, the
-      dispatch removes from the object it fetched, which is the stored one. *)
+      (c) a list grows only by register_callback: occurrences of c0 afterwards <= occurrences before + number of times
+          register_callback appended c0 to this list meanwhile;
+      (d) every UnregisterCallback costs the callback one registration as long as it has one: if the list object the
+          dispatch holds was not popped from the dict meanwhile (rpopped: an unregister_callback from inside the
+          dispatch left this very list empty) and c0 was not appended to the list meanwhile, occurrences of c0
+          afterwards <= occurrences before - number of times c0 raised UnregisterCallback (truncated subtraction: the
+          handler  if cbfunc in cblist: cblist.remove(cbfunc)  removes nothing when none is left).  The guard of the
+          earlier version (no removal of an absent callback, rbad) is gone.
+      The source facts register_appends_in_place / dispatch_removes_from_fetched_list / callback_iterates_copy /
+      unregister_handler_checks_membership tie the single list per (callback name, key) of the model to the code. *)
 Theorem C12_callbacks_once_with_reentrant_registration : forall W cn lv pk e s,
   exists new, rlog (rcallback W cn lv pk e s) = new ++ rlog s /\
     rev (disp_of new) = map (fun c => (c, cn, lv, pk, e)) (rcbs s cn lv) /\
     rcache (rcallback W cn lv pk e s) = rcache s /\
-    (rbad (rcallback W cn lv pk e s) = false ->
-     forall c0, cnt c0 (rcbs (rcallback W cn lv pk e s) cn lv) + raised c0 new <=
-                cnt c0 (rcbs s cn lv) + added c0 cn lv new).
+    (forall c0, cnt c0 (rcbs (rcallback W cn lv pk e s) cn lv) <= cnt c0 (rcbs s cn lv) + added c0 cn lv new) /\
+    (forall c0, rpopped W cn lv pk e s = false -> added c0 cn lv new = 0 ->
+       cnt c0 (rcbs (rcallback W cn lv pk e s) cn lv) <= cnt c0 (rcbs s cn lv) - raised c0 new).
 Proof. intros; apply callback_reentrant. Qed.
 
 (* the one-shot clause spelled out: (1) a callback that raised UnregisterCallback in a dispatch as often as it stood in
    the list, and was not appended again meanwhile, is not in the list afterwards -- also when it (or another callback)
-   registered other callbacks on the same list from inside the dispatch; (2) a callback that is not in the list of a
+   registered other callbacks on the same list from inside the dispatch, or unregistered some (as long as the list was
+   not left empty by an unregister_callback from inside: rpopped); (2) a callback that is not in the list of a
    level is not dispatched by that level, whatever the dispatched callbacks register meanwhile.  Together: never
-   invoked again (until somebody registers it again). *)
+   invoked again (until somebody registers it again).  (3) the list object is popped only by an unregister_callback for
+   the dispatched list made from inside the dispatch: when no invoked callback makes one, rpopped is false. *)
 Theorem C12_oneshot_gone_after_unregister : forall W cn lv pk e s c0,
-  rbad (rcallback W cn lv pk e s) = false ->
   exists new, rlog (rcallback W cn lv pk e s) = new ++ rlog s /\
-    (cnt c0 (rcbs s cn lv) <= raised c0 new -> added c0 cn lv new = 0 ->
+    (rpopped W cn lv pk e s = false -> cnt c0 (rcbs s cn lv) <= raised c0 new -> added c0 cn lv new = 0 ->
      ~ In c0 (rcbs (rcallback W cn lv pk e s) cn lv)).
 Proof. intros; apply oneshot_gone; auto. Qed.
 Theorem C12_not_registered_not_dispatched : forall W cn lv pk e s c0,
@@ -197,6 +203,10 @@ Theorem C12_not_registered_not_dispatched : forall W cn lv pk e s c0,
   exists new, rlog (rcallback W cn lv pk e s) = new ++ rlog s /\
     forall cn' lv' k' e', ~ In (c0, cn', lv', k', e') (disp_of new).
 Proof. intros; apply not_registered_not_dispatched; auto. Qed.
+Theorem C12_list_popped_only_by_inner_unregister : forall W cn lv pk e s,
+  (forall n, forallb (fun a => negb (unreg_on cn lv a)) (r_acts (W n)) = true) ->
+  rpopped W cn lv pk e s = false.
+Proof. intros; apply no_inner_unregister_no_pop; auto. Qed.
 
 (* a message is the cache write followed by the six dispatches in the fixed order, each starting in the state the
    previous one left (rlevel1 / rlevel2 are those states); invocations of a history are never reordered or dropped *)
@@ -232,7 +242,7 @@ Example C12_reentrant_demo :
                     | _ => {| r_acts := []; r_fin := BOk |} end in
   let s := rrun W (rst0 [0]) [RReg KNode CEvent 1; RReg KNode CEvent 3; RMsg re_demo_key (re_demo_e 1);
                                RMsg re_demo_key (re_demo_e 2)] in
-  rbad s = false /\ rcbs s CEvent KNode = [3; 2] /\
+  rcbs s CEvent KNode = [3; 2] /\
   filter (fun i => negb (is_ghost i)) (rev (rlog s)) =
     [RDisp 1 CEvent KNode re_demo_key (re_demo_e 1) BUnreg; RImm 2 CEvent KNode re_demo_key (re_demo_e 1) BOk;
      RDisp 3 CEvent KNode re_demo_key (re_demo_e 1) BExc; RErr 0 BOk;
@@ -318,5 +328,6 @@ Print Assumptions C12_conc_is_sequential.
 Print Assumptions C12_callbacks_once_with_reentrant_registration.
 Print Assumptions C12_oneshot_gone_after_unregister.
 Print Assumptions C12_not_registered_not_dispatched.
+Print Assumptions C12_list_popped_only_by_inner_unregister.
 Print Assumptions C12_reentrant_message_levels.
 Print Assumptions C12_reentrant_invocations_in_arrival_order.
